@@ -87,6 +87,7 @@ class IoExec(Exec):
         self.bytes = Poly.const(0)            # bytes written / consumed so far (header part)
         self.vsize = {}                       # vector var key -> size poly
         self.loops = []
+        self.used = set()                     # indices of stream fields whose value the reader uses
         self.tokens = []                      # text header tokens: ("lit", str) | ("int", Poly)
         self.tpos = 0
         self.nchar = 0
@@ -196,6 +197,8 @@ class IoExec(Exec):
 
     def stmt(self, s):
         s1 = R.strip(s) if s is not None else None
+        if s1 is not None and s1.get("k") == "Call":
+            self._stmt_call = id(s1)          # a call in statement position: its value is discarded
         if s1 is not None and s1.get("k") == "Decl":
             for d in s1.get("decls", []):
                 if d.get("id") and d.get("init") is not None:
@@ -230,7 +233,12 @@ class IoExec(Exec):
             if t is True:
                 raise Stop("io_error_if(%s)" % R.key(args[0])[:120], n.get("line"))
             if t is None:
-                self.ev_event("maybe_error", cond=R.key(args[0])[:200], line=n.get("line"))
+                before = dict(self.ranges)
+                self.ranges = self.refine(args[0], False)          # execution continues only when the condition is false
+                if self.ranges == before:
+                    self.ev_event("maybe_error", cond=R.key(args[0])[:200], line=n.get("line"))
+                else:
+                    self.ev_event("guard", cond=R.key(args[0])[:200], line=n.get("line"))
             return None
         m = re.search(r"_device::(write|read)_uint(8|16|32)$", name)
         if m:
@@ -243,6 +251,8 @@ class IoExec(Exec):
             if self.pos >= len(self.stream):
                 raise Stop("reader consumes more header fields than the writer produced", n.get("line"))
             wnb, v, wl, wk = self.stream[self.pos]
+            if getattr(self, "_stmt_call", None) != id(R.strip(n)):
+                self.used.add(self.pos)          # the reader looks at this field
             self.pos += 1
             self.bytes = self.bytes + Poly.const(nb // 8)
             if wnb != nb:
@@ -367,7 +377,7 @@ PIX = {"rgb8": "red_t, boost::gil::green_t, boost::gil::blue_t>, boost::mp11::mp
        "gray8": "pixel<unsigned char, boost::gil::layout<boost::mp11::mp_list<boost::gil::gray_color_t>",
        "gray1": "bit_aligned_pixel_reference<unsigned char, boost::mp11::mp_list<std::integral_constant<unsigned int, 1>>"}
 CASES = [("bmp", "rgb8"), ("bmp", "rgba8"), ("targa", "rgb8"), ("targa", "rgba8"), ("pnm", "gray8"), ("pnm", "rgb8"), ("pnm", "gray1")]
-DIM_MAX = {"bmp": BIG, "targa": 65535, "pnm": BIG}
+DIM_MAX = {"bmp": BIG, "targa": BIG, "pnm": BIG}
 
 
 def run_case(fns, fmt, pix):
@@ -522,6 +532,12 @@ def streams(rep, fns):
             prob.append("reader consumed %d of the %d header fields written" % (r["hdr_fields"], len(wx.stream)))
         if rx.tokens and rx.tpos < len([t for t in rx.tokens if t[0] != "sep"]) and rx.tpos < len(rx.tokens) - 1:
             prob.append("reader consumed %d of the %d header tokens written" % (rx.tpos, len(rx.tokens)))
+        for fi, (nb, v, line, kk) in enumerate(wx.stream):
+            if v is None or v.is_const() or fi not in rx.used:
+                continue            # constant fields and fields the reader skips cannot break the round trip
+            lo, hi = wx.bounds(v)
+            if lo is None or lo < 0 or hi >= 2 ** nb:
+                prob.append("the %d-bit header field `%s` (write.hpp:%s) does not hold its value %r for every image the writer accepts (range [%s, %s]): the excess is silently truncated" % (nb, kk, line, v, lo, hi))
         if info.get("_width") != Poly.atom("W") or info.get("_height") != Poly.atom("H"):
             prob.append("recovered width=%r height=%r (written W,H)" % (info.get("_width"), info.get("_height")))
         ev_hdr = {"writer_fields": ["%d:%r" % (s[0], s[1]) for s in wx.stream] or [("%s:%r" % t) for t in rx.tokens],
